@@ -5,9 +5,16 @@
   through `Hooks` (SimVerif/Drv/Kernel.lean).
 -/
 import SimVerif.Basic
+import SimVerif.HttpServer
 import SimVerif.HttpProxy
 
 namespace SimVerif.Drv
+
+/-- one `sim::http_server` object of a scenario -/
+structure HttpInst where
+  node    : String
+  srv     : HttpServer.Srv := {}
+  wrClose : Bool := false          -- the `close` argument bound into the pending `on_write`
 
 /-- which callback of `http_proxy` a handler id stands for -/
 inductive PxCb where
@@ -29,6 +36,7 @@ structure PxExt where
 
 structure ExtSt where
   unused : Unit := ()
-  proxy : PxExt := {}
+  http : List (String × HttpInst) := []      -- HTTP test servers `w<k>` (Drv/HttpSrv.lean)
+  proxy : PxExt := {}                         -- HTTP test proxies `x<k>` (Drv/ProxySrv.lean)
 
 end SimVerif.Drv
